@@ -179,7 +179,16 @@ func parsePartID(s string) (int, int, bool) {
 
 func idsOf(p sts.Payload) (pay int, ids []int) {
 	pay = -1
+	defer func() {
+		if r := recover(); r != nil {
+			ids = append(ids, -2) // a corrupt payload (nil part): reported by the oracles as unknown part
+		}
+	}()
 	for _, b := range p.GetParts() {
+		if b == nil || reflect.ValueOf(b).IsNil() {
+			ids = append(ids, -2)
+			continue
+		}
 		k, i, ok := parsePartID(b.GetRenamed())
 		if !ok {
 			ids = append(ids, -1)
